@@ -47,3 +47,33 @@ def install():
             return orig_build(self, *a, **k)
 
     pjs.ObjectBuilder.build_classes = build_classes
+
+
+def install_pjo_range_message_stub():
+    """pjo's minimum/maximum validators format the offending value into the error text, which realises a
+    symbolic value (one path per concrete value, never exhausted). The comparisons are kept verbatim; only the
+    message no longer contains the value ("formatting gets an empty body")."""
+    import python_jsonschema_objects.validators as V
+    if getattr(V, '_verif_stubbed', False):
+        return
+    V._verif_stubbed = True
+    ValidationError = V.ValidationError
+
+    def minimum(param, value, type_data):
+        exclusive = type_data.get("exclusiveMinimum")
+        if exclusive:
+            if value <= param:
+                raise ValidationError("value is less than or equal to {0}".format(param))
+        elif value < param:
+            raise ValidationError("value is less than {0}".format(param))
+
+    def maximum(param, value, type_data):
+        exclusive = type_data.get("exclusiveMaximum")
+        if exclusive:
+            if value >= param:
+                raise ValidationError("value is greater than or equal to {0}".format(param))
+        elif value > param:
+            raise ValidationError("value is greater than {0}".format(param))
+
+    V.registry.registry['minimum'] = minimum
+    V.registry.registry['maximum'] = maximum
